@@ -16,6 +16,11 @@ CHECKS = {
          'Every ordered tree up to 4 (thorough 5) nodes x every assignment of {none, SkipChildren, SkipSiblings, SkipNode, SkipDeparture} to each node x 20 extension timing sets is walked by the real Visitor.walkabout and Visitor.walk with instrumented main visitor and VisitorExt subclasses; the recorded enter/leave trace is checked against the invariants of the statement (enter at most once, every extension enter has a leave, nesting like the tree, documented relative order) and against a 30-line reference model of the documented contract. The state graph of the walk protocol (stack of open frames) is accumulated and reported. Second half: the real ASTBuilder walks every module of the statement alphabet x 6 placements and must be back at rest (scope stack empty).',
          'Trusted: the reference reading of the docstrings in pydoctor/visitor.py; pruning exceptions are raised by the main visitor in visit only.',
          'DESIGN.md section 5, C19'),
+ 'C05': ('model_checking',
+         'exhaustive enumeration of all class-definition sequences (ordered base choices) up to five classes through source->System->Class.mro(), differential against CPython type()/__mro__/inspect.getdoc',
+         'All 10 400 five-class definition sequences (class i picks an ordered subset of the earlier classes as bases; all shorter sequences are prefixes) are pushed through the full path source text -> System -> Class.mro() and compared with CPython executing the same class statements; inconsistent hierarchies must be reported for the class and still documented. All 170 sequences of up to 4 classes additionally carry every member family (defined by every non-empty subset of classes, docstring in each possible class): Class.find, inherited docstrings, inherited-member tables and "overrides" notes are compared with attribute lookup / inspect.getdoc along __mro__. Variants: generic-subscripted bases, every acyclic placement over 2 (thorough 3) modules x 3 import styles x every processing order, and all sequences at mro.mro level (thorough: all 3 390 400 six-class sequences). The space is finite and enumerated completely.',
+         'Trusted: CPython as oracle; the generator of class statements. Hierarchies CPython rejects for duplicate direct bases are not generated.',
+         'DESIGN.md section 5, C05'),
 }
 
 
